@@ -193,3 +193,15 @@ MUTANTS["C14"] = [
     ("cumulus-united-list-only-first", "annet/rpl_generators/cumulus_frr.py", "        if condition.operator is ConditionOperator.HAS_ANY:\n            return [mangle_united_community_list_name(condition.value)]", "        if condition.operator is ConditionOperator.HAS_ANY:\n            return [mangle_united_community_list_name(condition.value[:1])] if len(condition.value) > 2 else [mangle_united_community_list_name(condition.value)]"),
     ("rd-filter-by-name", "annet/rpl_generators/policy.py", '            yield "if-match rd-filter", str(rd_filter.number)', '            yield "if-match rd-filter", str(rd_filter.name)'),
 ]
+
+MUTANTS["C15"] = [
+    ("reverse-match-groups-swapped", "annet/mesh/registry.py", "                        direct_order=False,\n                        name_left=neighbor,\n                        name_right=device,\n                        match_left=args[0],\n                        match_right=args[1],", "                        direct_order=False,\n                        name_left=neighbor,\n                        name_right=device,\n                        match_left=args[1],\n                        match_right=args[0],"),
+    ("subif-zero-is-no-subif", "annet/mesh/executor.py", "        elif changes.subif is not None:\n            # single connection", "        elif changes.subif:\n            # single connection"),
+    ("direct-order-handler-args-swapped", "annet/mesh/executor.py", "        else:\n            rule.handler(peer_neighbor, peer_device, session)\n\n        if peer_neighbor.is_empty()", "        else:\n            rule.handler(peer_device, peer_neighbor, session)\n\n        if peer_neighbor.is_empty()"),
+    ("uselast-for-mtu", "annet/mesh/peer_models.py", "    mtu: int\n\n\nclass DirectPeerDTO", "    mtu: Annotated[int, UseLastMtu()]\n\n\nclass DirectPeerDTO", [("annet/mesh/peer_models.py", "from .basemodel import BaseMeshModel, Concat, Unite", "from .basemodel import BaseMeshModel, Concat, Unite, UseLast as UseLastMtu")]),
+    ("session-merged-into-one-side-only", "annet/mesh/executor.py", "            device_dto = merge(DirectPeerDTO(), peer_device, session)", "            device_dto = merge(DirectPeerDTO(), peer_device)"),
+    ("remote-as-from-local", "annet/mesh/models_converter.py", "        remote_as=ASN(connected.asnum),", "        remote_as=ASN(local.asnum),"),
+    ("unite-keeps-first", "annet/mesh/basemodel.py", "        return x | y  # type: ignore[operator]", "        return x  # type: ignore[operator]"),
+    # (returning NOT_SET for an unset right-hand value is an equivalent mutant: _merge starts from copy(a) and skips NOT_SET results)
+    ("lag-ports-all-connections", "annet/mesh/executor.py", "            if p[0].name in ports\n", "            if p[0].name in ports or True\n"),
+]
